@@ -16,6 +16,8 @@ def lookupRule (t : String) : List (List String × TruthRule) → Option TruthRu
 def applyRule : TruthRule → Val → Bool
   | .boolValue, .bool b => b
   | .strNotIn falsy, .str s => !(falsy.contains s)
+  | .sprintNotZero, .int _ n => n != 0            -- `%v` of an integer prints "0" exactly for zero
+  | .sprintNotZero, .float _ _ p => p != ['0']    -- NB `-0.0` prints "-0"
   | .sprintNotZero, v => v.sprint != ['0']
   | .neZero, .int _ n => n != 0
   | .neZero, .float _ z _ => !z
